@@ -31,6 +31,8 @@ type xOpts struct {
 	storeID bool
 	maxCid  uint64 // 0 = option not passed (library default 2 KiB)
 	maxSeek uint64 // environment: largest offset Seek accepts on the source
+	// UseDataPadding / UseIndexPadding: accepted by WrapV1's signature, ignored by it at HEAD
+	dataPad, indexPad uint64
 }
 
 var defaultXOpts = xOpts{maxH: 32 << 20}
@@ -45,7 +47,14 @@ func (o xOpts) val() Val {
 	if maxCid == 0 {
 		maxCid = carv2.DefaultMaxIndexCidSize
 	}
-	return VL{VN(o.maxH), vbool(o.zeof), VN(codec), vbool(o.storeID), VN(maxCid), VN(o.maxSeek)}
+	if maxCid > 32<<20-8 { // ApplyOptions caps MaxIndexCidSize at what an index record can hold
+		maxCid = 32<<20 - 8
+	}
+	v := VL{VN(o.maxH), vbool(o.zeof), VN(codec), vbool(o.storeID), VN(maxCid), VN(o.maxSeek)}
+	if o.dataPad != 0 || o.indexPad != 0 {
+		v = append(v, VN(o.dataPad), VN(o.indexPad))
+	}
+	return v
 }
 
 func (o xOpts) v2() []carv2.Option {
@@ -62,14 +71,24 @@ func (o xOpts) v2() []carv2.Option {
 	if o.maxCid != 0 {
 		opts = append(opts, carv2.MaxIndexCidSize(o.maxCid))
 	}
+	if o.dataPad != 0 {
+		opts = append(opts, carv2.UseDataPadding(o.dataPad))
+	}
+	if o.indexPad != 0 {
+		opts = append(opts, carv2.UseIndexPadding(o.indexPad))
+	}
 	return opts
 }
 
 func xoptsOfVal(v Val) xOpts {
 	l := v.(VL)
 	// the recorded values are the effective ones; passing them explicitly is equivalent
-	return xOpts{maxH: uint64(l[0].(VN)), zeof: l[1].(VN) != 0, codec: uint64(l[2].(VN)),
+	o := xOpts{maxH: uint64(l[0].(VN)), zeof: l[1].(VN) != 0, codec: uint64(l[2].(VN)),
 		storeID: l[3].(VN) != 0, maxCid: uint64(l[4].(VN)), maxSeek: uint64(l[5].(VN))}
+	if len(l) > 7 {
+		o.dataPad, o.indexPad = uint64(l[6].(VN)), uint64(l[7].(VN))
+	}
+	return o
 }
 
 func xerr(err error) Val {
